@@ -130,6 +130,8 @@ theorem sinv_step {s s' : St} {tr : Tr} (hi : Inv s) (h : SInv s) (hs : step? s 
     simp only [step?] at hs; split at hs
     · split at hs
       · rename_i p hbt hsu _ tp htp
+        split at hs
+        case isFalse => cases hs
         cases hs
         have hst : tp.st = .inCb := by
           obtain ⟨x, hx, hxs, _⟩ := hi.cbFwd t p hbt
@@ -314,10 +316,10 @@ theorem sinv_step {s s' : St} {tr : Tr} (hi : Inv s) (h : SInv s) (hs : step? s 
   | nestDec t =>
     simp only [step?] at hs; split at hs
     · split at hs
-      · rename_i q hsu _ tp htp
+      · rename_i q rest _ hn _ tp htp
         cases hs
         have hst : tp.st = .inCbN := by
-          obtain ⟨x, hx, hxs, _⟩ := hi.nFwd t q hsu
+          obtain ⟨x, hx, hxs, _⟩ := hi.nFwd t _ q hn List.mem_cons_self
           rw [htp] at hx; cases hx; exact hxs
         have hok := h.tpok tp (List.mem_of_getElem? htp)
         have hclk := h.clk
